@@ -103,6 +103,40 @@ func (in *input) reachesUnrequested(entry []int) bool {
 	return false
 }
 
+// unrequestedAround: does a package that is in the run through imports only sort before / after the first entrypoint
+func (in *input) unrequestedAround(entry []int) (before, after bool) {
+	asked := map[int]bool{}
+	first := ""
+	for _, e := range entry {
+		asked[e] = true
+		if p := importPath(in.Mod, in.Pkgs[e].Dir); first == "" || p < first {
+			first = p
+		}
+	}
+	seen := map[int]bool{}
+	var walk func(i int)
+	walk = func(i int) {
+		if seen[i] {
+			return
+		}
+		seen[i] = true
+		if !asked[i] {
+			if importPath(in.Mod, in.Pkgs[i].Dir) < first {
+				before = true
+			} else {
+				after = true
+			}
+		}
+		for _, j := range in.Pkgs[i].Imports {
+			walk(j)
+		}
+	}
+	for _, e := range entry {
+		walk(e)
+	}
+	return
+}
+
 // ---------- the synthetic module ----------
 
 func pkgName(dir string) string {
@@ -611,9 +645,30 @@ func valid(in *input) string {
 		}
 		seen[p.Dir] = true
 		for _, j := range p.Imports {
-			if j <= i || j >= len(in.Pkgs) {
+			if j == i || j < 0 || j >= len(in.Pkgs) {
 				return "bad import"
 			}
+		}
+	}
+	// the import graph is acyclic (an imported package may come before or after its importer)
+	state := make([]int, len(in.Pkgs))
+	var cyclic func(i int) bool
+	cyclic = func(i int) bool {
+		if state[i] != 0 {
+			return state[i] == 1
+		}
+		state[i] = 1
+		for _, j := range in.Pkgs[i].Imports {
+			if cyclic(j) {
+				return true
+			}
+		}
+		state[i] = 2
+		return false
+	}
+	for i := range in.Pkgs {
+		if cyclic(i) {
+			return "import cycle"
 		}
 	}
 	for _, o := range in.Ops {
@@ -633,6 +688,9 @@ func valid(in *input) string {
 		}
 		if (o.K == "set" || o.K == "del") && (o.File == "" || o.File == "doc.go" || strings.Contains(o.File, "..")) {
 			return "bad file"
+		}
+		if (o.K == "set" || o.K == "del") && o.File == sumName && in.Pkgs[o.P].Dir == "." {
+			return "bad file" // the module's own gengo.sum: delsum / corrupt
 		}
 	}
 	return ""
@@ -802,6 +860,16 @@ func (prop) Run(raw json.RawMessage, scratch string) core.Result {
 			default:
 				tags["run:all"] = true
 			}
+			if o.All && o.Entry != nil {
+				if before, after := in.unrequestedAround(o.Entry); before || after {
+					if before {
+						tags["run:all-subset-import-sorts-before-first-entry"] = true
+					}
+					if after {
+						tags["run:all-subset-import-sorts-after-first-entry"] = true
+					}
+				}
+			}
 			if o.Fail != nil {
 				tags["run:failing"] = true
 			}
@@ -881,6 +949,10 @@ func editKind(file string) string {
 		return "generated"
 	case file == "dangling" || file == "":
 		return "other"
+	case strings.Contains(strings.ToLower(file), "gengo.su"):
+		return "sum-lookalike"
+	case strings.HasPrefix(file, ".") || strings.HasPrefix(file, "_"):
+		return "dotfile"
 	case strings.Contains(file, "/"):
 		return "subdir"
 	case strings.HasSuffix(file, ".go"):
